@@ -124,6 +124,11 @@ def _cycle_discipline(r, g, fname: str, raise_class: str):
                 t = b.ast
                 alts = t.values if isinstance(t, ast.BoolOp) and isinstance(t.op, ast.Or) else [t]
                 okx = b.pol and all(g.alpha.atom(x) in {(a_, True) for a_ in allowed} for x in alts)
+            if not okx:
+                # "neither a sequence nor a mapping" is "nothing to descend into" as well: PyYAML's collection nodes are exactly these two
+                held = {g.alpha.atom(a_, p_) for a_, p_ in g.guards(ret)}
+                if {('isinstance(%s, yaml.SequenceNode)' % node, False), ('isinstance(%s, yaml.MappingNode)' % node, False)} <= held:
+                    okx = True
             r.check(okx, 'the early exit is taken only for scalars and nodes already checked', g.key('early-exit'), g.loc(ret),
                     'the cycle check returns before descending under %s: collections are skipped and `&a [*a]` exhausts the stack again'
                     % [('' if b.pol else 'not ') + norm(b.ast) for b in inner[-1:]])
